@@ -11,11 +11,17 @@
    Together with C07's history independence: on the sequence fragment (scalars, big numbers, strings, names, lists,
    vectors, tagged values below the depth cap, coherent hash caches) the verdict of the reader's duplicate check is the
    pairwise verdict of the elements at EVERY size (C08_verdict_is_pairwise_partial).
+   WHOLE DOCUMENTS: a set literal  #{ ... }  whose elements are terms of the reader fragment (integers, keywords, nested
+   lists and vectors; any trivia and discarded forms in the gaps; ANY number of elements below 2^64) is rejected with the
+   class "duplicate element" exactly when two of its elements are equal (same normal form), wherever the pair stands, and
+   is otherwise accepted as a set of all its elements; the condition is invariant under permutation (C08_set_literal_partial).
    PARTIAL: elements that are sets, maps or external values (history independence is proved on the sequence fragment
    only) and qsort itself (assumed to return a comparator-ordered permutation). *)
 From Coq Require Import ZArith NArith List Bool Permutation Sorted.
 From Coq.Strings Require Import Byte.
 From Verif Require Import Lanes Common Values Equality EqBasics EqEquiv Configs FlagProofs HashDup SortDup History.
+From Verif Require Import Scan Reader RoundTrip RoundTripEq RoundTripGap RoundTripErr RoundTripSet.
+From Coq Require Import String.
 Import ListNotations.
 
 Section C08.
@@ -74,6 +80,26 @@ Example C08_sort_example :
   forallb sort_comparable l = true /\ dup_sorted cfg00 (fun _ => None) (isort cfg00) l = true.
 Proof. vm_compute. split; reflexivity. Qed.
 
+(* whole documents: the set literal  #{ g1 x1 ... gk xk tl }  *)
+Theorem C08_set_literal_partial : forall c o m els tl, In c all_cfgs -> setwf els tl ->
+  let ts := map (fun p => gerase (snd p)) els in
+  Forall (fun t => (tdepth t <= max_depth)%nat) ts -> Forall tsmall ts -> (Z.of_nat (List.length els) < 2 ^ 64)%Z ->
+  slice m 0 (List.length (settext els tl)) = settext els tl ->
+  exists r s, run_doc c o m (N.of_nat (List.length (settext els tl))) = Ret r s /\ r_eof r = false /\
+    ((has_equal_terms c ts /\ r_value r = None /\ r_err r = EDupElem) \/
+     (~ has_equal_terms c ts /\ r_err r = EOk /\ exists n xs', r_value r = Some n /\ nval n = VSet xs' /\ List.length xs' = List.length els)).
+Proof. exact set_document. Qed.
+Theorem C08_condition_permutation_invariant : forall c ts ts', Permutation ts ts' -> has_equal_terms c ts -> has_equal_terms c ts'.
+Proof. exact has_equal_terms_perm. Qed.
+(* non-vacuity:  #{1 :a, [1 2] #_:x (1 2) }  -- a list equals the vector of the same elements *)
+Example C08_set_example :
+  let els := [([], GInt false ["1"%byte]); ([GWs [" "%byte]], GKw ["a"%byte]); ([GWs [","; " "]%byte], GSeq true [([], GInt false ["1"%byte]); ([GWs [" "%byte]], GInt false ["2"%byte])] []);
+              ([GWs [" "%byte]; GDisc [] (GKw ["x"%byte]); GWs [" "%byte]], GSeq false [([], GInt false ["1"%byte]); ([GWs [" "%byte]], GInt false ["2"%byte])] [])] in
+  setwf els [GWs [" "%byte]] /\ settext els [GWs [" "%byte]] = list_byte_of_string "#{1 :a, [1 2] #_:x (1 2) }" /\
+  has_equal_terms cfg00 (map (fun p => gerase (snd p)) els).
+Proof. exact set_example. Qed.
+
+Print Assumptions C08_set_literal_partial.
 Print Assumptions C08_verdict_is_pairwise_partial.
 Print Assumptions C08_sort_strategy.
 Print Assumptions C08_sort_strategy_model.
